@@ -287,6 +287,35 @@ def check_url_loop(P, R):
              and [s for s in sl if s[0] == 'literal'][0][2] == p for (_, sl, _) in out)
     R.ob('C19.c', f, after[0] if after else f.node, ok, text='trailing literal pattern_out[start:start+length] emitted after the loop', detail='' if ok else
          'the literal text after the last wildcard is not emitted as pattern_out[start:start+length]')
+    # ... whenever there is one: under the loop invariant start + length == len(pattern) at the end, the guard of the trailing append is `length > 0`
+    for st in after:
+        if isinstance(st, ast.If) and any(isinstance(c_, ast.Call) and call_attr(c_) == 'append' for c_ in ast.walk(st)):
+            t_, neg_ = strip_not(st.test)
+            cp_ = compare_parts(t_)
+            verdict = None        # True: equivalent to length > 0; False: misses some non-empty tail; None: unknown
+            if isinstance(t_, ast.Name) and t_.id == clen and not neg_:
+                verdict = True
+            elif cp_ and not neg_:
+                a_, op_, b_ = cp_
+                sa_, sb_ = src(a_).replace(' ', ''), src(b_).replace(' ', '')
+                L_ = f'len({seq})'
+                if sa_ == clen and isinstance(b_, ast.Constant) and isinstance(b_.value, int):
+                    verdict = (op_ is ast.Gt and b_.value == 0) or (op_ is ast.NotEq and b_.value == 0) or (op_ is ast.GtE and b_.value == 1)
+                    if not verdict and op_ in (ast.Gt, ast.GtE):
+                        verdict = False
+                elif sa_ == cidx and sb_ == L_:
+                    verdict = op_ in (ast.Lt, ast.NotEq)
+                elif sa_ == L_ and sb_ == cidx:
+                    verdict = op_ in (ast.Gt, ast.NotEq)
+                elif sa_ == cidx and isinstance(b_, ast.BinOp) and isinstance(b_.op, ast.Sub) and src(b_.left).replace(' ', '') == L_ and isinstance(b_.right, ast.Constant):
+                    verdict = False if (op_ is ast.Lt and b_.right.value >= 1) or (op_ is ast.LtE and b_.right.value >= 2) else (True if op_ is ast.LtE and b_.right.value == 1 else None)
+            if verdict is None:
+                R.undecided('C19.c', f, st.test, 'trailing literal', f'the guard `{short(st.test)}` has no recogniser')
+            else:
+                R.ob('C19.c', f, st.test, verdict, text=f'`if {short(st.test)}`: the trailing literal is emitted whenever it is not empty', detail='' if verdict else
+                     f'`{short(st.test)}` is false for some non-empty literal tail (a tail of exactly one character after the last wildcard, `/v<major:int>.<minor:int>/`): '
+                     f'the built URL lacks that character and no longer matches the rule',
+                     why='the URL built from a matched assignment matches the same rule again', key_extra='tail-guard')
     rets = [n for n in walk_shallow(f.node) if isinstance(n, ast.Return) and isinstance(n.value, ast.Call) and call_attr(n.value) == 'join']
     ok = bool(rets) and is_const(rets[-1].value.func.value, '')
     R.ob('C19.c', f, rets[-1] if rets else f.node, ok, text="return ''.join(parts)", detail='' if ok else 'the parts are not concatenated in order', nontrivial=False)
@@ -316,6 +345,9 @@ def check(P, R):
     R.rule('C19.b', 'converter / formatter pairs', floor=4)
     R.rule('C19.c', 'marker loop keeps its slice invariant', floor=7)
 
+    # the assignment a match reports is complete: make_params_dict drops anonymous names only (premise shared with C01.f)
+    from . import c01 as _c01
+    _c01.check_params_filter(P, R, 'C19.a', 'url() built from the assignment a match reports needs every named wildcard of the rule, also those that matched 0 or ""')
     f = P.func(f'{RR}:Route.url')
     g, rd = f.cfg, f.rd
     # shape-independent first: the URL is assembled in an object of this call (a route is shared by all requests, and a build that is rejected half-way
@@ -376,6 +408,17 @@ def check(P, R):
             cn = g.node_of_stmt(c)[0]
             cl = rd.closure_nodes(a.right, cn)
             ok = any(isinstance(x, ast.Name) and x.id in pout_names for x in cl) or any(isinstance(x, ast.Attribute) and dotted(x) == 'self.pattern_out' for x in cl)
+            if ok and isinstance(a.right, ast.Name):
+                # ... on every path: a user `re` filter may look ahead as well, so the literal is appended whatever the filter is
+                for d_ in rd.at(cn, a.right.id):
+                    cl_d = rd.closure_nodes(d_.value, d_.node) if d_.value is not None else []
+                    from_pat = any(isinstance(x, ast.Name) and x.id in pout_names for x in cl_d) or any(isinstance(x, ast.Attribute) and dotted(x) == 'self.pattern_out' for x in cl_d)
+                    if not from_pat:
+                        R.ob('C19.a', f, d_.stmt, False, text=f'`{short(d_.stmt)}` reaches the validation call', detail=
+                             f'on some path the text appended for validation is `{short(d_.value) if d_.value is not None else d_.kind}`, not the literal that follows the wildcard '
+                             f'(e.g. only for filters flagged as looking ahead): an `re` wildcard whose expression looks ahead at the following literal - '
+                             f'`/foo/<re(pro.+?(?=l))>le` - matches, but url() built from the match raises',
+                             why='every parameter assignment a rule can produce by matching must be buildable', key_extra='following-on-every-path')
         R.ob('C19.a', f, c, ok, text=f'validation {short(c)}; masks with look-ahead: {sorted(set(lookahead))}', detail='' if ok else
              f'the filter is applied to the bare value although the mask of {sorted(set(lookahead))} looks ahead at the literal that follows the '
              f'wildcard: url() raises for every rule like /a/<x:path>/b that matching accepts',
